@@ -46,7 +46,7 @@ def run(tier, wd):
     # (2) the real library under the race detector: sequential permuted orders, then concurrent goroutines
     racebin = core.build_harness(race=True)
     total_seq = total_conc = ncases = 0
-    runs = 3 if q else 12
+    runs = 3 if q else 30
     rounds, gor = (6, 16) if q else (40, 32)
     samples = []
     for k in range(runs):
